@@ -18,8 +18,8 @@ func ps1Always(p *core.Prog, rep *core.Report) {
 		d.runEntry(fn, "Cob", "(*DB)."+m+"|SyncStrategy=Always|success-returns", "every success return is reached in state clean", func(a string) bool { return a[0] == 'C' })
 	}
 	d.flush()
-	if rep.Stats["write_events"] == 0 || rep.Stats["sync_events"] == 0 {
-		core.Failf("vacuity guard: PS1 found no WRITE or no flush event below Put/Delete")
+	if rep.Stats["write_events"] == 0 {
+		core.Failf("vacuity guard: PS1 found no WRITE event below Put/Delete (every state would be trivially clean)")
 	}
 }
 
